@@ -398,6 +398,48 @@ fn role_try_from(agg_id: usize) -> Result<bool, VdafError> {
     }
 }
 
+/// Hook H4: the crate-private, field-generic Prio2 client and server routines, unchanged.
+#[cfg(prio_verif)]
+pub mod verif {
+    use crate::field::{FieldPrio2, NttFriendlyFieldElement};
+    use crate::prng::Prng;
+    use super::{client, server, Prio2};
+    use rand_core::Rng;
+
+    /// `ClientMemory::new(dimension)` followed by `prove_with` copying `data` into the data part.
+    pub fn prove<F: NttFriendlyFieldElement>(dimension: usize, data: &[F]) -> Result<Vec<F>, String> {
+        let mut mem = client::ClientMemory::<F>::new(dimension).map_err(|e| e.to_string())?;
+        mem.prove_with(dimension, |out| out.clone_from_slice(data))
+            .map_err(|e| e.to_string())
+    }
+    /// `proof_length(dimension)`.
+    pub fn proof_length(dimension: usize) -> usize {
+        client::proof_length(dimension)
+    }
+    /// `generate_verification_message`, returning `(f_r, g_r, h_r)`.
+    pub fn verification_message<F: NttFriendlyFieldElement>(
+        dimension: usize,
+        eval_at: F,
+        proof: &[F],
+        is_first_server: bool,
+    ) -> Result<(F, F, F), String> {
+        server::generate_verification_message(dimension, eval_at, proof, is_first_server)
+            .map(|m| (m.f_r, m.g_r, m.h_r))
+            .map_err(|e| e.to_string())
+    }
+    /// `is_valid_share` on two `(f_r, g_r, h_r)` triples.
+    pub fn is_valid_share<F: NttFriendlyFieldElement>(v1: (F, F, F), v2: (F, F, F)) -> bool {
+        server::is_valid_share(
+            &server::VerificationMessage { f_r: v1.0, g_r: v1.1, h_r: v1.2 },
+            &server::VerificationMessage { f_r: v2.0, g_r: v2.1, h_r: v2.2 },
+        )
+    }
+    /// `Prio2::choose_eval_at` drawing from an arbitrary byte source.
+    pub fn choose_eval_at<S: Rng>(prio2: &Prio2, stream: S) -> FieldPrio2 {
+        prio2.choose_eval_at(&mut Prng::from_seed_stream(stream))
+    }
+}
+
 #[cfg(test)]
 mod tests {
     use super::*;
